@@ -1,4 +1,5 @@
 (* Compiled from ocaml/runner/ so that model.ml lands there.  ExtrOcamlBasic only. *)
 From Coq Require Import Extraction ExtrOcamlBasic.
-From SSV Require Import Runner.PartialSig Runner.Model.
-Extraction "model.ml" PartialSig.step PartialSig.init_state PartialSig.dump Model.vstep Model.vinit.
+From SSV Require Import Gen.RunnerConsts Runner.PartialSig Runner.Model.
+Extraction "model.ml" PartialSig.step PartialSig.init_state PartialSig.dump Model.vstep Model.vinit
+  RunnerConsts.fix_resign RunnerConsts.fix_multi_root.
